@@ -1056,6 +1056,34 @@ class AttrParser(BaseParser):
 
         return res
 
+    def float_from_bit_pattern(
+        self, value: int, type: AnyFloat, span: Span | None = None
+    ) -> float:
+        """
+        The float of the given type whose bit pattern is the given integer.
+        """
+        try:
+            raw = value.to_bytes(type.compile_time_size, "little")
+        except OverflowError:
+            self.raise_error(
+                f"Hexadecimal float literal does not fit in {type}", at_position=span
+            )
+        return next(type.iter_unpack(raw))
+
+    def _parse_dense_array_float(self, type: AnyFloat) -> float:
+        """
+        Parse a float element of a dense array: a float literal, or the bit pattern
+        of the value as a hexadecimal integer literal.
+        """
+        if self._current_token.kind == MLIRTokenKind.INTEGER_LIT and (
+            self._current_token.text[:2] in ("0x", "0X")
+        ):
+            token = self._consume_token(MLIRTokenKind.INTEGER_LIT)
+            return self.float_from_bit_pattern(
+                token.kind.get_int_value(token.span), type, token.span
+            )
+        return self.parse_float()
+
     def _parse_builtin_densearray_attr(self) -> DenseArrayBase | None:
         self.parse_characters("<", " in dense array")
         pos = self.pos
@@ -1083,7 +1111,7 @@ class AttrParser(BaseParser):
         else:
             values = self.parse_comma_separated_list(
                 self.Delimiter.NONE,
-                lambda: self.parse_float(),
+                lambda: self._parse_dense_array_float(element_type),
             )
             res = DenseArrayBase.from_list(element_type, values)
 
@@ -1145,13 +1173,21 @@ class AttrParser(BaseParser):
                 parser.raise_error("Expected integer value", at_position=self.span)
             return int(self.value)
 
-        def to_float(self, parser: AttrParser) -> float:
+        def to_float(self, parser: AttrParser, type: AnyFloat | None = None) -> float:
             """
             Convert the element to a float value. Raises an error if the type
             is compatible.
+            A hexadecimal integer literal is the bit pattern of the value.
             """
             if isinstance(self.value, tuple):
                 parser.raise_error("No conversion from complex to float")
+            if (
+                type is not None
+                and isinstance(self.value, int)
+                and not isinstance(self.value, bool)
+                and self.span.text[:2] in ("0x", "0X")
+            ):
+                return parser.float_from_bit_pattern(self.value, type, self.span)
             return float(self.value)
 
         def to_complex(
@@ -1174,7 +1210,7 @@ class AttrParser(BaseParser):
             type: AnyFloat | IntegerType | IndexType | ComplexType,
         ):
             if isinstance(type, AnyFloat):
-                return self.to_float(parser)
+                return self.to_float(parser, type)
 
             match type:
                 case IntegerType():
